@@ -105,6 +105,8 @@ Definition do_binop (o : binop) (a b : val) (w : world) : res (val * world) :=
       | Some (Fin x), Some (Fin y) => do p <- decide (0 < x)%R w; if fst p then Ok (VNum (Fin (Rpower x y)), snd p) else Stuck "non-positive ** real"
       | Some _, Some _ => Stuck "pow of non-finite" | _, _ => Exc "TypeError" end
   | Mod, _, _ => Stuck "mod"
+  | BitAnd, VBool x, VBool y => Ok (VBool (x && y), w)
+  | BitAnd, _, _ => Stuck "&"
   end.
 (* numpy broadcasting on nested lists: list (op) list elementwise, scalar (op) list, and
    matrix (op) vector along the last axis; fuel bounds the nesting depth *)
@@ -515,6 +517,9 @@ Definition exec_stmt (tl : string -> string -> option oracle)
       | Ok ow => Ok ow
       | Exc _ => ex handler ρ w
       | Stuck m => Stuck m | Need P => Need P end
+  | SWith ctx name body =>        (* the context manager's value is bound; __enter__/__exit__ are not modelled (files only) *)
+      do cw <- ev ctx ρ w;
+      ex body (match name with Some x => update x (fst cw) ρ | None => ρ end) (snd cw)
   | SUnsupported m => Stuck ("unsupported stmt: " ++ m)
   end.
 Fixpoint run_stmts (step : stmt -> env -> world -> res (outcome * world)) (ss : list stmt) (ρ : env) (w : world)
